@@ -52,7 +52,21 @@ type ReplayFile struct {
 	Original   map[string]int      `json:"minimised_from"`
 	Attempts   int                 `json:"shrink_attempts"`
 	Note       string              `json:"note,omitempty"`
+	// Warmup: runs the worker had executed in the same process before this one. Engines whose
+	// system under test lives across runs (the rw engine drives one Flame instance for the whole
+	// process) replay them first, so that whatever the framework carried over is there again.
+	Warmup *Warmup `json:"warmup,omitempty"`
 }
+
+// Warmup names the runs that preceded a recorded run in its worker process.
+type Warmup struct {
+	From   uint64 `json:"from"`
+	Stride uint64 `json:"stride"`
+	Count  int    `json:"count"`
+}
+
+// crossRunner is implemented by engines whose system under test outlives a run.
+type crossRunner interface{ CrossRunState() bool }
 
 // Summary is what a batch hands to the controller.
 type Summary struct {
@@ -259,7 +273,11 @@ func batch(args []string) {
 				continue
 			}
 			seenClass[v.Class()] = true
-			ref := record(e, *seed, idx, rs, t, v, *replays, !res.Poisoned)
+			var wu *Warmup
+			if cr, ok := e.(crossRunner); ok && cr.CrossRunState() {
+				wu = &Warmup{From: *from, Stride: *stride, Count: k}
+			}
+			ref := record(e, *seed, idx, rs, t, v, *replays, !res.Poisoned, wu)
 			sum.Violations = append(sum.Violations, ref)
 		}
 		if len(sum.Violations) >= *maxViol || res.Poisoned {
@@ -287,7 +305,7 @@ func batch(args []string) {
 }
 
 // record shrinks a failing run in-process and writes its replay file.
-func record(e eng.Engine, master, idx, rs uint64, t *tape.Tape, v eng.Violation, dir string, doShrink bool) VioRef {
+func record(e eng.Engine, master, idx, rs uint64, t *tape.Tape, v eng.Violation, dir string, doShrink bool, wu *Warmup) VioRef {
 	class := v.Class()
 	rec := shrink.Rec(t.Record())
 	orig := map[string]int{}
@@ -333,7 +351,7 @@ func record(e eng.Engine, master, idx, rs uint64, t *tape.Tape, v eng.Violation,
 	}
 	rf := ReplayFile{Property: v.Property, Engine: e.Name(), Rule: v.Rule, MasterSeed: master, RunIndex: idx, RunSeed: rs,
 		Build: map[string]any{"tags": "verif", "race": sched.RaceOn, "autoyield": world.AutoMode}, Tape: tt.Record(), SchedHash: strconv.FormatUint(r.SchedHash, 16),
-		Violation: *fv, Trace: r.Trace, Original: orig, Attempts: attempts, Note: note}
+		Violation: *fv, Trace: r.Trace, Original: orig, Attempts: attempts, Note: note, Warmup: wu}
 	os.MkdirAll(dir, 0o755)
 	h := eng.Hash64(0, class)
 	for _, n := range tt.Names() {
@@ -369,6 +387,13 @@ func replay(args []string) {
 		return
 	}
 	e := getEngine(rf.Engine)
+	if rf.Warmup != nil {
+		for k := 0; k < rf.Warmup.Count; k++ {
+			i := rf.Warmup.From + uint64(k)*rf.Warmup.Stride
+			e.Run(tape.New(tape.RunSeed(rf.MasterSeed, i)), eng.Opts{})
+		}
+		fmt.Printf("replay: re-executed the %d runs that preceded this one in its worker process\n", rf.Warmup.Count)
+	}
 	t := tape.Replay(rf.RunSeed, rf.Tape)
 	res := e.Run(t, eng.Opts{Trace: true})
 	class := rf.Property + "/" + rf.Rule
